@@ -9,6 +9,7 @@ import (
 	"verifmc/engine"
 
 	plush "github.com/gobuffalo/plush/v5"
+	"github.com/gobuffalo/plush/v5/vtick"
 )
 
 // C09 — names bound inside for/function/partial/contentOf scopes never leak or clobber.
@@ -225,7 +226,7 @@ func init() {
 	engine.Register(&engine.Prop{
 		ID: "C09",
 		Shards: func(th bool) []string {
-			s := []string{"repeat"}
+			s := []string{"repeat", "deep"}
 			for k := range c09Kinds {
 				for sub := 0; sub < 8; sub++ {
 					s = append(s, fmt.Sprintf("%d:%d", k, sub))
@@ -234,7 +235,7 @@ func init() {
 			return s
 		},
 		Run:  c09Run,
-		Rule: "nestings of {for over a slice / an Iterator / a map, user-function call, partial with data, contentFor+contentOf with data, contentOf default block with data, block helper using BlockWith(child), block helper using Block(), if, contentFor defined at top level and used at the inner level, one contentFor block used twice (with and without data), one data map held in a variable and passed to two partial calls}; at each level every subset of {let fresh_l, shadowing let o, assignment o = …}; every name (o, fresh names, loop variables, parameters, data names of every level) is probed at the end of each body, after each construct closes and at the end of the template; compared with an environment-chain reference model (let/assign bind in the current scope, lookup outward; for/call/partial/contentOf/BlockWith open a scope, if and Block() do not; a far contentFor block runs in a child of its definition scope). (repeat) every scope-opening construct entered twice or more from the same place (a function called from two tags / from every loop iteration / recursively, a partial and a contentOf rendered twice, a partial that renders its own text recursively with the cache off and on, a loop run twice, BlockWith twice): the body reads a name BEFORE its own let of that name, or lets it on one path only - every entry must see the outer value (or nothing), never what an earlier entry (of this or another function) bound; one partial / contentOf call site evaluated in different scopes (function called twice, inner loop re-entered, stored block used with different data); names carried by a wrapped Go context (NewContextWithContext) read in every scope; an outer variable / context value named like a built-in helper read two and three scopes down (function in function, loop in function, partial in partial); a name bound to nil inside (loop variable, parameter, let, partial / contentOf data) hides the same-named outer variable. Non-trivial: depth >= 2 with at least one binding action.",
+		Rule: "nestings of {for over a slice / an Iterator / a map, user-function call, partial with data, contentFor+contentOf with data, contentOf default block with data, block helper using BlockWith(child), block helper using Block(), if, contentFor defined at top level and used at the inner level, one contentFor block used twice (with and without data), one data map held in a variable and passed to two partial calls}; at each level every subset of {let fresh_l, shadowing let o, assignment o = …}; every name (o, fresh names, loop variables, parameters, data names of every level) is probed at the end of each body, after each construct closes and at the end of the template; compared with an environment-chain reference model (let/assign bind in the current scope, lookup outward; for/call/partial/contentOf/BlockWith open a scope, if and Block() do not; a far contentFor block runs in a child of its definition scope). (repeat) every scope-opening construct entered twice or more from the same place (a function called from two tags / from every loop iteration / recursively, a partial and a contentOf rendered twice, a partial that renders its own text recursively with the cache off and on, a loop run twice, BlockWith twice): the body reads a name BEFORE its own let of that name, or lets it on one path only - every entry must see the outer value (or nothing), never what an earlier entry (of this or another function) bound; one partial / contentOf call site evaluated in different scopes (function called twice, inner loop re-entered, stored block used with different data); names carried by a wrapped Go context (NewContextWithContext) read in every scope; an outer variable / context value named like a built-in helper read two and three scopes down (function in function, loop in function, partial in partial); a name bound to nil inside (loop variable, parameter, let, partial / contentOf data) hides the same-named outer variable. (deep) a contentFor block defined 0..9 scopes deep (for loops / BlockWith children / function bodies) and rendered with data 0..4 scopes further in: block data and block lets are gone after the call, every variable of the calling scopes is still readable; a name bound at level j of D nested scopes (D = 1..24, 31..33, 40, 64, 65, 100; every j up to 24, boundary j beyond) read from the innermost scope together with the first, middle and last level's own variables; a function calling itself D deep below a shadowing parameter, a loop variable, a let in a middle frame. Non-trivial: depth >= 2 with at least one binding action.",
 		Bound: func(th bool) string {
 			if th {
 				return "depth <=3, all 8 action subsets per level"
@@ -247,6 +248,10 @@ func init() {
 func c09Run(t *engine.T, shard string) {
 	if shard == "repeat" {
 		c09Repeat(t)
+		return
+	}
+	if shard == "deep" {
+		c09Deep(t)
 		return
 	}
 	var k0, s0 int
@@ -405,4 +410,173 @@ func c09Repeat(t *engine.T) {
 			return "repeat", nil
 		})
 	}
+}
+
+// c09Deep: the same rules many scopes down. (stored) a contentFor block defined dDef scopes deep and rendered
+// with data by contentOf m scopes further in: its data and its let are gone after the call, the caller's own
+// variables are all still there. (chain) a name bound j scopes out of D is read from the innermost one.
+func c09Deep(t *engine.T) {
+	probe := func(n string) string { return `<%= if (` + n + `) { %><%= ` + n + ` %><% } else { %>-<% } %>` }
+	for _, kind := range []string{"for", "bwith", "fn"} {
+		for dDef := 0; dDef <= 9; dDef++ {
+			for m := 0; m <= 4; m++ {
+				var open strings.Builder
+				lastDef, lastUse := "-", "-"
+				level := func(i int, pre string) string {
+					n := fmt.Sprintf("%s%d", pre, i)
+					switch kind {
+					case "for":
+						open.WriteString(`<%= for (` + n + `) in ["` + strings.ToUpper(n) + `"] { %>`)
+						return strings.ToUpper(n)
+					case "bwith":
+						open.WriteString(`<%= bwith() { %><% let ` + n + ` = "` + strings.ToUpper(n) + `" %>`)
+						return strings.ToUpper(n)
+					}
+					open.WriteString(`<% let f` + n + ` = fn(` + n + `) { %>`)
+					return strings.ToUpper(n)
+				}
+				for i := 1; i <= dDef; i++ {
+					lastDef = level(i, "a")
+				}
+				defProbe := "-"
+				if dDef > 0 {
+					defProbe = lastDef
+				}
+				open.WriteString(`<% contentFor("cell") { %><% let z = "bl" %>(<%= k %>/<%= z %>/` + probe(fmt.Sprintf("a%d", dDef)) + `)<% } %>`)
+				lastUse = lastDef
+				for i := 1; i <= m; i++ {
+					lastUse = level(i, "b")
+				}
+				useVar := fmt.Sprintf("b%d", m)
+				if m == 0 {
+					useVar = fmt.Sprintf("a%d", dDef)
+				}
+				if dDef+m == 0 {
+					lastUse = "-"
+				}
+				first := "-"
+				firstVar := "a1"
+				if dDef > 0 {
+					first = "A1"
+				} else if m > 0 {
+					first, firstVar = "B1", "b1"
+				}
+				body := `<% let x = "inner" %>[<%= contentOf("cell", {"k": "data"}) %>x=<%= x %>;k=` + probe("k") + `;z=` + probe("z") + `;i=` + probe(useVar) + `;f=` + probe(firstVar) + `]`
+				src := `<% let x = "outer" %>` + open.String() + body + c09Closers(kind, dDef, m) + `|x=<%= x %>`
+				tail := "outer"
+				if dDef+m == 0 {
+					tail = "inner"
+				}
+				want := `[(data/bl/` + defProbe + `)x=inner;k=-;z=-;i=` + lastUse + `;f=` + first + `]|x=` + tail
+				t.Case(fmt.Sprintf("deep stored-block %s def=%d use=+%d %s", kind, dDef, m, q(src)), true, func() (string, *engine.Fail) {
+					out, err := Render(src, c09Context(nil))
+					if err != nil || out != want {
+						return "", engine.Failf("mismatch", "expected %q, got %q / %v", want, out, err)
+					}
+					return "stored-block", nil
+				})
+			}
+		}
+	}
+	depths := []int{}
+	for d := 1; d <= 24; d++ {
+		depths = append(depths, d)
+	}
+	depths = append(depths, 31, 32, 33, 40, 64, 65, 100)
+	for _, kind := range []string{"for", "bwith", "fn"} {
+		for _, D := range depths {
+			for j := 0; j <= D; j++ {
+				if D > 24 && j != 0 && j != 1 && j != D/2 && j != D-17 && j != D-16 && j != D-15 && j != D-1 && j != D {
+					continue
+				}
+				var open strings.Builder
+				open.WriteString(`<% let m = "top" %><% let keep = "K" %>`)
+				for i := 1; i <= D; i++ {
+					n := fmt.Sprintf("v%d", i)
+					switch kind {
+					case "for":
+						open.WriteString(`<%= for (` + n + `) in ["` + strings.ToUpper(n) + `"] { %>`)
+					case "bwith":
+						open.WriteString(`<%= bwith() { %><% let ` + n + ` = "` + strings.ToUpper(n) + `" %>`)
+					case "fn":
+						open.WriteString(`<% let f` + n + ` = fn(` + n + `) { %>`)
+					}
+					if i == j {
+						open.WriteString(`<% let m = "M` + fmt.Sprint(j) + `" %>`)
+					}
+				}
+				mid := D/2 + 1
+				src := open.String() + `[<%= m %>/<%= keep %>/<%= v1 %>/<%= v` + fmt.Sprint(mid) + ` %>/<%= v` + fmt.Sprint(D) + ` %>/<%= len(m) %>]` + c09Closers2(kind, D) + `|<%= m %>`
+				mv := "top"
+				if j > 0 {
+					mv = "M" + fmt.Sprint(j)
+				}
+				want := `[` + mv + `/K/V1/V` + fmt.Sprint(mid) + `/V` + fmt.Sprint(D) + `/` + fmt.Sprint(len(mv)) + `]|top`
+				t.Case(fmt.Sprintf("deep chain %s depth=%d bound-at=%d", kind, D, j), true, func() (string, *engine.Fail) {
+					vtick.Reset(20_000_000)
+					out, err := Render(src, c09Context(nil))
+					if err != nil || out != want {
+						return "", engine.Failf("mismatch", "expected %q, got %q / %v (template %q)", want, out, err, src)
+					}
+					return "chain", nil
+				})
+			}
+			// a function calling itself D deep below a caller whose parameter shadows a top-level name, and below a loop
+			D := D
+			for _, c := range []struct{ name, src, want string }{
+				{"shadowing parameter", `<% let marker = "M" %><% let tag = "top" %><% let walk = fn(n) { if (n == 0) { return marker + len(marker) + tag }
+ let r = walk(n - 1)
+ return r } %><% let start = fn(tag, depth) { return walk(depth) } %><%= start("mid", ` + fmt.Sprint(D) + `) %>|<%= tag %>|<%= walk(` + fmt.Sprint(D) + `) %>`, "M1mid|top|M1top"},
+				{"loop variable", `<% let deep = fn(n) { if (n == 0) { return row }
+ let r = deep(n - 1)
+ return r } %><%= for (row) in ["a", "b"] { %>[<%= deep(` + fmt.Sprint(D) + `) %>]<% } %>`, "[a][b]"},
+				{"let in a middle frame", `<% let w = "top" %><% let down = fn(n) { if (n == 0) { return w }
+ if (n == ` + fmt.Sprint(D/2+1) + `) { let w = "mid" 
+ return down(n - 1) }
+ return down(n - 1) } %><%= down(` + fmt.Sprint(D) + `) %>|<%= w %>`, "mid|top"},
+			} {
+				if kind != "fn" {
+					continue
+				}
+				c := c
+				t.Case(fmt.Sprintf("deep recursion %s depth=%d %s", c.name, D, q(c.src)), true, func() (string, *engine.Fail) {
+					vtick.Reset(20_000_000)
+					out, err := Render(c.src, c09Context(nil))
+					if err != nil || out != c.want {
+						return "", engine.Failf("mismatch", "expected %q, got %q / %v", c.want, out, err)
+					}
+					return "recursion", nil
+				})
+			}
+		}
+	}
+}
+
+// c09Closers closes dDef outer and m inner levels opened by c09Deep's first family, innermost first.
+func c09Closers(kind string, dDef, m int) string {
+	var sb strings.Builder
+	for i := m; i >= 1; i-- {
+		sb.WriteString(`<% } %>`)
+		if kind == "fn" {
+			sb.WriteString(fmt.Sprintf(`<%%= fb%d("B%d") %%>`, i, i))
+		}
+	}
+	for i := dDef; i >= 1; i-- {
+		sb.WriteString(`<% } %>`)
+		if kind == "fn" {
+			sb.WriteString(fmt.Sprintf(`<%%= fa%d("A%d") %%>`, i, i))
+		}
+	}
+	return sb.String()
+}
+
+func c09Closers2(kind string, D int) string {
+	var sb strings.Builder
+	for i := D; i >= 1; i-- {
+		sb.WriteString(`<% } %>`)
+		if kind == "fn" {
+			sb.WriteString(fmt.Sprintf(`<%%= fv%d("V%d") %%>`, i, i))
+		}
+	}
+	return sb.String()
 }
